@@ -101,6 +101,21 @@ def searchNear (p : Params) (c : SignCtx) : Nat → Int → Option (Int × List 
         searchNear p c n (k + 1) (if better then some (k, s, it.zmax) else best)
       else searchNear p c n (k + 1) best
 
+/-- among the iterations κ < n that fail ONLY the z test: the one with the smallest ‖z‖∞ (closest to the bound from above) -/
+def searchOverMin (p : Params) (c : SignCtx) : Nat → Int → Option (Int × List Nat × Int) → Chk (Option (Int × List Nat × Int))
+  | 0, _, best => .ok best
+  | n + 1, k, best => do
+      let it ← iterFull p c.mat c.mu c.rhoprime c.s1h c.s2h c.t0h k
+      if it.rZ && !it.rR0 && !it.rCt0 && encodable p it then do
+        let better := match best with
+          | none => true
+          | some (_, _, m) => decide (it.zmax < m)
+        if better then do
+          let s ← packIter p it
+          searchOverMin p c n (k + 1) (some (k, s, it.zmax))
+        else searchOverMin p c n (k + 1) best
+      else searchOverMin p c n (k + 1) best
+
 def skipAccepted (p : Params) (c : SignCtx) : Nat → Int → Nat → Chk (Option (Int × List Nat × Int))
   | 0, _, _ => .ok none
   | n + 1, k, toSkip => do
@@ -125,7 +140,21 @@ def forge (p : Params) (kind : String) (sk msg : List Nat) (maxiter : Nat) : Chk
   | "ct0-skip" => searchIter p c (fun it => !it.rZ && !it.rR0 && it.rCt0) maxiter 0
   | "later-accept" => skipAccepted p c maxiter 0 1
   | "z-near" => searchNear p c maxiter 0 none
+  | "z-over-min" => searchOverMin p c maxiter 0 none
   | _ => .error .unwrap
+
+/-- rejection statistics over the first n iterations: [z, r0, ct0, hints>ω, accepted, hints=ω (other tests passed), max hints] -/
+def iterStats (p : Params) (c : SignCtx) : Nat → Int → List Int → Chk (List Int)
+  | 0, _, acc => .ok acc
+  | n + 1, k, acc => do
+      let it ← iterFull p c.mat c.mu c.rhoprime c.s1h c.s2h c.t0h k
+      let b (x : Bool) : Int := if x then 1 else 0
+      let others := !it.rZ && !it.rR0 && !it.rCt0
+      let upd : List Int := [b it.rZ, b (!it.rZ && it.rR0), b (!it.rZ && !it.rR0 && it.rCt0), b (others && it.rH),
+        b (others && !it.rH), b (others && decide (it.nh = p.omega)), 0]
+      let acc' := (List.zipWith (· + ·) acc upd)
+      let acc' := acc'.take 6 ++ [max (acc.getD 6 0) (if others then it.nh else 0)]
+      iterStats p c n (k + 1) acc'
 
 /-! ### C06 predicate -/
 
